@@ -5,21 +5,18 @@ use mila::verif_hooks::encoded_strings::to_utf_16;
 use mila::verif_hooks::text_archive::{write_shift_jis_string, write_utf_16_string};
 use mila::{BinArchive, Endian, TextArchive, TextArchiveFormat};
 
-fn ascii_message<const N: usize>() -> (String, [u8; N]) {
+fn check_writer<const N: usize>(prior: usize, utf16: bool) {
+    // message = N symbolic NUL-free ASCII bytes, viewed as &str without going through the heap
     let raw: [u8; N] = kani::any();
     for i in 0..N {
         kani::assume(raw[i] != 0 && raw[i] < 0x80);
     }
-    (unsafe { String::from_utf8_unchecked(raw.to_vec()) }, raw)
-}
-
-fn check_writer<const N: usize>(prior: usize, utf16: bool) {
-    let (msg, raw) = ascii_message::<N>();
+    let msg: &str = unsafe { std::str::from_utf8_unchecked(&raw) };
     let mut buf: Vec<u8> = Vec::new();
     for _ in 0..prior {
         buf.push(0xEE);
     }
-    let r = if utf16 { keep(write_utf_16_string(&mut buf, &msg)) } else { keep(write_shift_jis_string(&mut buf, &msg)) };
+    let r = if utf16 { keep(write_utf_16_string(&mut buf, msg)) } else { keep(write_shift_jis_string(&mut buf, msg)) };
     assert!(r.is_some(), "C06: writing an encodable message must succeed");
     let unit = if utf16 { 2 } else { 1 };
     let body = prior + N * unit;
@@ -39,13 +36,12 @@ fn check_writer<const N: usize>(prior: usize, utf16: bool) {
         }
     }
     std::mem::forget(buf);
-    std::mem::forget(msg);
 }
 
-// @tier quick
-// @timeout 900
-// @mem 12
-// @bounds Shift-JIS message writer: every NUL-free ASCII message of length 0, 1, 3, 4 (symbolic content) appended to a buffer of length 0 or 2 (solver-chosen arm)
+// @tier thorough
+// @timeout 3600
+// @mem 32
+// @bounds Shift-JIS message writer: every NUL-free ASCII message of length 0, 1 and 3 (symbolic content) appended to an empty buffer (solver-chosen arm)
 // @claims write_shift_jis_string: encoded text, one NUL terminator, zero padding so that the buffer ends on a 4-byte boundary; earlier bytes untouched
 // @assume encoding_rs encode replaced by the 7-bit model (stubs.rs)
 #[kani::proof]
@@ -53,32 +49,60 @@ fn check_writer<const N: usize>(prior: usize, utf16: bool) {
 #[kani::stub(encoding_rs::Encoding::encode, crate::stubs::encode_ascii_model)]
 fn c06_shift_jis_writer() {
     let sel: u8 = kani::any();
-    kani::assume(sel < 6);
+    kani::assume(sel < 3);
     if sel == 0 { check_writer::<0>(0, false); }
     if sel == 1 { check_writer::<1>(0, false); }
     if sel == 2 { check_writer::<3>(0, false); }
-    if sel == 3 { check_writer::<4>(0, false); }
-    if sel == 4 { check_writer::<1>(2, false); }
-    if sel == 5 { check_writer::<2>(2, false); }
-    kani::cover!(sel == 3);
+    kani::cover!(sel == 2);
 }
 
-// @tier quick
-// @timeout 900
-// @mem 12
-// @bounds UTF-16 message writer: every NUL-free ASCII message of length 0, 1, 2, 3 (symbolic content) appended to a buffer of length 0 or 2 (solver-chosen arm)
+// @tier thorough
+// @timeout 3600
+// @mem 32
+// @bounds Shift-JIS message writer: every NUL-free ASCII message of length 4 appended to an empty buffer, and of length 1 and 2 appended to a buffer of length 2 (solver-chosen arm)
+// @claims as c06_shift_jis_writer when the message exactly fills a word (a full padding word follows) and when the buffer was not aligned before
+// @assume encoding_rs encode replaced by the 7-bit model (stubs.rs)
+#[kani::proof]
+#[kani::unwind(26)]
+#[kani::stub(encoding_rs::Encoding::encode, crate::stubs::encode_ascii_model)]
+fn c06_shift_jis_writer_b() {
+    let sel: u8 = kani::any();
+    kani::assume(sel < 3);
+    if sel == 0 { check_writer::<4>(0, false); }
+    if sel == 1 { check_writer::<1>(2, false); }
+    if sel == 2 { check_writer::<2>(2, false); }
+    kani::cover!(sel == 0);
+}
+
+// @tier thorough
+// @timeout 3600
+// @mem 32
+// @bounds UTF-16 message writer: every NUL-free ASCII message of length 0, 1, 2 (symbolic content) appended to an empty buffer (solver-chosen arm)
 // @claims write_utf_16_string: UTF-16LE units, a two-byte terminator, zero padding to the next 4-byte boundary; earlier bytes untouched
 #[kani::proof]
 #[kani::unwind(26)]
 fn c06_utf16_writer() {
     let sel: u8 = kani::any();
-    kani::assume(sel < 5);
+    kani::assume(sel < 3);
     if sel == 0 { check_writer::<0>(0, true); }
     if sel == 1 { check_writer::<1>(0, true); }
     if sel == 2 { check_writer::<2>(0, true); }
-    if sel == 3 { check_writer::<3>(0, true); }
-    if sel == 4 { check_writer::<1>(2, true); }
-    kani::cover!(sel == 3);
+    kani::cover!(sel == 2);
+}
+
+// @tier thorough
+// @timeout 2400
+// @mem 16
+// @bounds UTF-16 message writer: every NUL-free ASCII message of length 3 appended to an empty buffer, of length 1 appended to a buffer of length 2 (solver-chosen arm)
+// @claims as c06_utf16_writer for a message that needs a two-byte padding and for an unaligned buffer
+#[kani::proof]
+#[kani::unwind(26)]
+fn c06_utf16_writer_b() {
+    let sel: u8 = kani::any();
+    kani::assume(sel < 2);
+    if sel == 0 { check_writer::<3>(0, true); }
+    if sel == 1 { check_writer::<1>(2, true); }
+    kani::cover!(sel == 1);
 }
 
 // @tier quick
@@ -189,15 +213,7 @@ fn apply(t: &mut TextArchive, m: &mut Model, op: u8) {
     }
 }
 
-// @tier quick
-// @timeout 2400
-// @mem 16
-// @bounds every history of 3 operations from {set(k,m), delete(k)} over keys {a,b,c} and messages {"","2"} (9 operations per step, symbolic), starting from set(a), set(b), set(c) or from the empty archive (solver-chosen)
-// @claims after any such history the archive lists exactly the surviving keys in order of first insertion, lookups return the last value set, has_message agrees; the dirty flag is clear on a new archive and set after any set
-// @assume IndexMap model of --cfg mila_verif (insertion order, shift_remove / swap_remove with their documented semantics)
-#[kani::proof]
-#[kani::unwind(8)]
-fn c07_ordered_map_histories() {
+fn histories(steps: usize) {
     let mut t = TextArchive::new(TextArchiveFormat::ShiftJIS, Endian::Little);
     let mut m = Model { order: [0; 3], len: 0, value: [0; 3] };
     assert!(!t.is_dirty(), "C07: a new archive must not be dirty");
@@ -212,23 +228,53 @@ fn c07_ordered_map_histories() {
         m.set(2, 0);
     }
     let mut any_set = prefilled;
-    for _ in 0..3 {
-        let op: u8 = kani::any();
-        kani::assume(op < 9);
-        // ops 0..5 = set(key, msg); 6..8 = delete(key)
-        let enc = if op < 6 { op } else { 6 + (op - 6) * 2 };
-        apply(&mut t, &mut m, enc);
-        if op < 6 {
-            any_set = true;
+    for step in 0..3 {
+        if step < steps {
+            let op: u8 = kani::any();
+            kani::assume(op < 9);
+            // ops 0..5 = set(key, msg); 6..8 = delete(key)
+            let enc = if op < 6 { op } else { 6 + (op - 6) * 2 };
+            apply(&mut t, &mut m, enc);
+            if op < 6 {
+                any_set = true;
+            }
+            same_as_model(&t, &m);
         }
-        same_as_model(&t, &m);
     }
     if any_set {
         assert!(t.is_dirty(), "C07: the dirty flag must be set after any set");
     }
     kani::cover!(prefilled && m.len == 1);
-    kani::cover!(!prefilled && m.len == 3);
+    kani::cover!(!prefilled && m.len == 2);
     std::mem::forget(t);
+}
+
+// @tier quick
+// @timeout 1800
+// @mem 24
+// @bounds every history of 2 operations from {set(k,m), delete(k)} over keys {a,b,c} and messages {"","2"} (9 operations per step, symbolic), starting from the empty archive or from set(a), set(b), set(c) (solver-chosen)
+// @unwindset memchr=40
+// @claims after any such history the archive lists exactly the surviving keys in order of first insertion (re-setting keeps the place, deleting never reorders, re-adding appends), lookups return the last value set, has_message agrees; the dirty flag is clear on a new archive and set after any set
+// @assume IndexMap model of --cfg mila_verif (insertion order, shift_remove / swap_remove with their documented semantics)
+#[kani::proof]
+#[kani::unwind(8)]
+#[kani::stub(core::slice::memchr::memchr, crate::stubs::memchr_model)]
+fn c07_ordered_map_histories() {
+    histories(2);
+}
+
+// @tier thorough
+// @timeout 5400
+// @mem 44
+// @bounds as c07_ordered_map_histories with every history of 3 operations
+// @unwindset memchr=40
+// @claims as c07_ordered_map_histories
+// @assume IndexMap model of --cfg mila_verif
+#[kani::proof]
+#[kani::unwind(8)]
+#[kani::stub(core::slice::memchr::memchr, crate::stubs::memchr_model)]
+fn c07_ordered_map_histories_3() {
+    histories(3);
 }
 
 fn escape_case(input: &str, stored: &str, looked_up: &str) {
@@ -248,32 +294,66 @@ fn escape_case(input: &str, stored: &str, looked_up: &str) {
 }
 
 // @tier quick
-// @timeout 2400
-// @mem 16
-// @bounds concrete messages mixing escape sequences, real newlines and backslashes: "a\\nb", "a<LF>b", "\\", "\\\\n", "\\n\\n", "n\\", "" (solver-chosen arm)
+// @timeout 900
+// @mem 12
+// @bounds concrete messages "a\\nb" (escape sequence) and "a<LF>b" (real newline) (solver-chosen arm)
+// @unwindset memchr=40
 // @claims escape sequences are stored as real newlines, every newline comes back escaped, lone backslashes are untouched, and set(get(k)) is the identity on the stored text
 #[kani::proof]
 #[kani::unwind(16)]
-fn c07_newline_escaping() {
+#[kani::stub(core::slice::memchr::memchr, crate::stubs::memchr_model)]
+fn c07_newline_escaping_a() {
     let sel: u8 = kani::any();
-    kani::assume(sel < 7);
+    kani::assume(sel < 2);
     if sel == 0 { escape_case("a\\nb", "a\nb", "a\\nb"); }
     if sel == 1 { escape_case("a\nb", "a\nb", "a\\nb"); }
-    if sel == 2 { escape_case("\\", "\\", "\\"); }
-    if sel == 3 { escape_case("\\\\n", "\\\n", "\\\\n"); }
-    if sel == 4 { escape_case("\\n\\n", "\n\n", "\\n\\n"); }
-    if sel == 5 { escape_case("n\\", "n\\", "n\\"); }
-    if sel == 6 { escape_case("", "", ""); }
-    kani::cover!(sel == 3);
+    kani::cover!(sel == 1);
+}
+
+// @tier quick
+// @timeout 900
+// @mem 12
+// @bounds concrete messages with lone backslashes ("\\", "n\\") and the empty message (solver-chosen arm)
+// @unwindset memchr=40
+// @claims escape sequences are stored as real newlines, every newline comes back escaped, lone backslashes are untouched, and set(get(k)) is the identity on the stored text
+#[kani::proof]
+#[kani::unwind(16)]
+#[kani::stub(core::slice::memchr::memchr, crate::stubs::memchr_model)]
+fn c07_newline_escaping_b() {
+    let sel: u8 = kani::any();
+    kani::assume(sel < 3);
+    if sel == 0 { escape_case("\\", "\\", "\\"); }
+    if sel == 1 { escape_case("n\\", "n\\", "n\\"); }
+    if sel == 2 { escape_case("", "", ""); }
+    kani::cover!(sel == 2);
+}
+
+// @tier quick
+// @timeout 900
+// @mem 12
+// @bounds concrete messages "\\\\n" (backslash before an escape sequence) and two consecutive escape sequences (solver-chosen arm)
+// @unwindset memchr=40
+// @claims escape sequences are stored as real newlines, every newline comes back escaped, lone backslashes are untouched, and set(get(k)) is the identity on the stored text
+#[kani::proof]
+#[kani::unwind(16)]
+#[kani::stub(core::slice::memchr::memchr, crate::stubs::memchr_model)]
+fn c07_newline_escaping_c() {
+    let sel: u8 = kani::any();
+    kani::assume(sel < 2);
+    if sel == 0 { escape_case("\\\\n", "\\\n", "\\\\n"); }
+    if sel == 1 { escape_case("\\n\\n", "\n\n", "\\n\\n"); }
+    kani::cover!(sel == 1);
 }
 
 // @tier quick
 // @timeout 600
 // @expect witness
 // @bounds set(a) then delete(a)
+// @unwindset memchr=40
 // @claims vacuity witness for the C06/C07 harnesses (must FAIL at its final assert)
 #[kani::proof]
 #[kani::unwind(8)]
+#[kani::stub(core::slice::memchr::memchr, crate::stubs::memchr_model)]
 fn c07_witness() {
     let mut t = TextArchive::new(TextArchiveFormat::ShiftJIS, Endian::Little);
     t.set_message("a", "1");
